@@ -43,6 +43,27 @@ Theorem C02_declarations_commute_static_static :
     st_equiv s12 s21.
 Proof. exact static_static_commute. Qed.
 
+(* Clause (b) for the same pair, and the hypotheses stated once: Pcs Cs s = the part Pst of inv_b
+   that excludes the internal-error branches of Trellis.create on a file node (C02_inv_implies_Pst)
+   and every creator of Cs is an attached step.  Two static declarations of different creators
+   of Cs are accepted in both orders or in neither; if accepted the graphs agree. *)
+Theorem C02_static_static_both_orders_or_neither :
+  forall (Cs : list key) (a b : op) (s : st),
+    other_creator a b -> static_by Cs a -> static_by Cs b -> Pcs Cs s ->
+    accepted2 a b s = accepted2 b a s /\
+    (accepted2 a b s = true -> st_equiv (apply_op (apply_op s a) b) (apply_op (apply_op s b) a)).
+Proof. exact static_diamond. Qed.
+
+(* Congruence: a static declaration cannot tell two equivalent states apart. *)
+Theorem C02_static_declaration_congruent :
+  forall (Cs : list key) (o : op) (s s' : st),
+    static_by Cs o -> Pcs Cs s -> Pcs Cs s' -> st_equiv s s' ->
+    okb o s = okb o s' /\ st_equiv (apply_op s o) (apply_op s' o).
+Proof. exact static_cong. Qed.
+
+Theorem C02_inv_implies_Pst : forall s, inv_b s = true -> Pst s.
+Proof. exact inv_b_Pst. Qed.
+
 (* ---- 1'. where the faithful model does not commute (each witness is a reachable state with
         inv_b = true in which both issuers are RUNNING) ------------------------------------- *)
 
@@ -135,6 +156,15 @@ Theorem C02_schedule_independent_generic :
       (all_ok l1 s = true -> E (run_ops l1 s) (run_ops l2 s)).
 Proof. exact swaps_sound. Qed.
 
+(* Instantiated: any two arrival orders (related by swaps of requests of different creators) of
+   static declarations issued by a set Cs of attached steps are accepted or refused alike, and if
+   accepted produce graphs that agree on every look-up.  No bound on the number of requests. *)
+Theorem C02_schedule_independent_static_partial :
+  forall (Cs : list key) (l1 l2 : list op) (s : st),
+    Pcs Cs s -> Forall (static_by Cs) l1 -> swaps other_creator l1 l2 ->
+    all_ok l1 s = all_ok l2 s /\ (all_ok l1 s = true -> st_equiv (run_ops l1 s) (run_ops l2 s)).
+Proof. exact schedule_independent_static_partial. Qed.
+
 (* ---- non-vacuity --------------------------------------------------------------------------- *)
 Definition ex_boot : list op :=
   [OpDeclareStatic root_key [[112]]; OpUpdateHashes CConfirmed [([112], Some 1)];
@@ -166,3 +196,22 @@ Example C02_hash_result_example :
   both_orders (OpUpdateHashes CConfirmed [([120], Some 7)]) (OpUpdateHashes CConfirmed [([122], None)]) s = VCommute /\
   both_orders (OpUpdateHashes CConfirmed [([120], Some 7)]) (OpDeclareStatic (KStep, [98]) [[121]]) s = VCommute.
 Proof. vm_compute. repeat split; reflexivity. Qed.
+
+(* the hypotheses of C02_schedule_independent_static_partial hold in the example state, for a
+   three-request schedule and its reversal-by-swaps; both are accepted *)
+Example C02_schedule_example :
+  let s := run_ops ex_boot (init_st 3) in
+  let Cs := [(KStep, [97]); (KStep, [98])] in
+  let ra := OpDeclareStatic (KStep, [97]) [[120]; [121]] in
+  let rb := OpDeclareStatic (KStep, [98]) [[122]] in
+  let rc := OpDeclareStatic (KStep, [97]) [[123]] in
+  Pcs Cs s /\ Forall (static_by Cs) [ra; rb; rc] /\ swaps other_creator [ra; rb; rc] [rb; ra; rc] /\
+  all_ok [ra; rb; rc] s = true.
+Proof.
+  cbv zeta. split; [|split; [|split]].
+  - split; [apply inv_b_Pst; vm_compute; reflexivity|].
+    intros c [<-|[<-|[]]]; split; vm_compute; reflexivity.
+  - repeat constructor; cbn; auto; intros H; repeat (destruct H as [H|H]; try discriminate); try contradiction.
+  - apply (sw_swap other_creator [] _ _ [_]). cbn. discriminate.
+  - vm_compute. reflexivity.
+Qed.
